@@ -4,6 +4,7 @@ import Pdpy11.Driver.Bk
 import Pdpy11.Driver.Insn
 import Pdpy11.Driver.Ea
 import Pdpy11.Driver.Directive
+import Pdpy11.Driver.Dec
 namespace Pdpy11.Driver
 
 def handle (line : String) : String :=
@@ -21,6 +22,8 @@ def handle (line : String) : String :=
     | "dir" => handleDir args
     | "wlist" => handleWordList args
     | "asize" => handleAnnounced args
+    | "dec" => handleDec args
+    | "canon" => handleCanon args
     | "ping" => "pong"
     | _ => "bad-op"
 
